@@ -318,7 +318,8 @@ func oracleTagtool(op *Sexp, res string) []string { return lastTagtoolOracle }
 
 var ttTags = []string{`json:"a"`, `json:"-"`, `sql:"-"`, `json:"b,omitempty" sql:"c"`, `plenc:"1"`, `plenc:"3"`, `plenc:"7,flat"`, `plenc:"-"`,
 	`json:"x" plenc:"2"`, `plenc:"12" json:"-"`, ``, ` `, `yaml:"q"`, `json:"a,omitempty"`, `db:"col" json:"-" sql:"-"`, `plenc:"0"`,
-	`json:"a"`, `json:"-"`, `sql:"-"`, `plenc:"5"`, `plenc:"2,intern" json:"n"`, `xml:"e" json:"e"`, `plenc:"40"`, `json:"k"  sql:"k"`}
+	`json:"a"`, `json:"-"`, `sql:"-"`, `plenc:"5"`, `plenc:"2,intern" json:"n"`, `xml:"e" json:"e"`, `plenc:"40"`, `json:"k"  sql:"k"`,
+	`sql:"password_hash" json:"-"`, `json:"-" sql:"col"`, `sql:"-" json:"shown"`, `json:"-,"`, `sql:"-,omitempty"`, `json:"a,"`}
 
 // rare: malformed tags (the tool must report an error, not crash)
 var ttBadTags = []string{`plenc:"x"`, `json:"unterminated`, `bad tag`, `plenc:`, `:"v"`, `plenc:"1" json`}
